@@ -71,6 +71,8 @@ def build_term(t, V):
 
 def _build_term(t, V):
     k = t[0]
+    if k == "pcall":
+        return FUNC_PREDS[t[1]][0](*[build_term(a, V) for a in t[2]])
     if k == "subq":
         return an(entity(V[t[1]], build_cond(t[2], V)))
     if k == "attr":
